@@ -1,7 +1,7 @@
 //@ kani perm
 //@ append src/find/matchers/perm.rs
 //@ module verif_kani_perm
-//@ harness k_mode_bits_match kind=complete props=C13 label=<<ComparisonType::mode_bits_match over every 32-bit st_mode and every 12-bit operand: MODE exact on all twelve bits, -MODE all bits set, /MODE any bit set or MODE == 0>>
+//@ harness k_mode_bits_match kind=complete props=C13 covers=entry::ComparisonType::mode_bits_match label=<<ComparisonType::mode_bits_match over every 32-bit st_mode and every 12-bit operand: MODE exact on all twelve bits, -MODE all bits set, /MODE any bit set or MODE == 0>>
 #[cfg(any(kani, verif_replay))]
 mod verif_kani_perm {
     use super::*;
